@@ -131,9 +131,10 @@ class Builder:
             ns['ids'] = meta(idsf)
         else:
             if d.get('inherit') is not None:
-                ns['__inherit__'] = d['inherit'] if isinstance(d['inherit'], bool) else tuple(d['inherit'])
+                ns['__inherit__'] = d['inherit'] if isinstance(d['inherit'], bool) else \
+                    (d['inherit'][0] if d.get('inherit_str') and len(d['inherit']) == 1 else tuple(d['inherit']))
             if d.get('exclude') is not None:
-                ns['__exclude__'] = tuple(d['exclude'])
+                ns['__exclude__'] = d['exclude'][0] if d.get('exclude_str') and len(d['exclude']) == 1 else tuple(d['exclude'])
         if d['k'] == 'split':
             ns['__split__'] = self.fn(d['split'], key, '__split__')
         for name, spec in d.get('params', {}).items():
